@@ -238,7 +238,7 @@ def pipeline_strategy():
 def subchecks(tier):
     q = tier == "quick"
     return [
-        Sub("aligner-unit", "hyp", check_unit, strategy=lambda: gen_unit.aligner_case(1, 6), examples=16000 if q else 400000,
+        Sub("aligner-unit", "hyp", check_unit, strategy=lambda: gen_unit.mixed_case(1, 6), examples=16000 if q else 400000,
             shrink_budget=500, required_classes=("single-seed-segmentation", "segments=2")),
         Sub("pipeline", "hyp", check_pipeline, strategy=pipeline_strategy, examples=1000 if q else 24000, shrink_budget=120,
             sample_filter=gen_maps.short_case, required_classes=("fragment-candidate", "joined-row", "single-seed-segmentation")),
